@@ -2,7 +2,7 @@
    src/food_system/{outdoor_crops,greenhouses,seafood,stored_food,methane_scp,cellulosic_sugar,
    seaweed,meat_and_dairy,feed_and_biofuels}.py as the code is NOW (after fix: 92d5ee9, 28cb69e).
    Definitions only; lemmas are in Proofs/Series.v.  Numbers are exact rationals. *)
-From Coq Require Import QArith List Bool Arith ZArith.
+From Coq Require Import QArith List Bool Arith ZArith String.
 From Allfed Require Import Base.QSeries.
 Import ListNotations.
 Open Scope Q_scope.
@@ -53,6 +53,14 @@ Definition year1_ratio (r1 : Q) (seas : list Q) (hbm_override : option Q) : Q :=
     let fa := 1 - hbm in
     if Qlt_bool fa (1 # 4) then 1 else after_nw / fa
   else 0.
+
+(* the four countries whose harvest-before-May share is fixed in the code instead of read from the seasonality *)
+Definition country_hbm (code : string) : option Q :=
+  if String.eqb code "ZAF" then Some 1
+  else if String.eqb code "JPN" then Some 0
+  else if String.eqb code "PRK" then Some 0
+  else if String.eqb code "KOR" then Some 0
+  else None.
 
 (* all_months_reductions: 8 months of year 1, 12 of years 2..9, 16 of year 10  (always 120 entries) *)
 Definition year_blocks (y1 : Q) (rs : list Q) : list Q :=
@@ -289,3 +297,47 @@ Definition stored_initial (stocks : list Q) (start : nat) (ratio_untouched pct w
 Definition stored_ok (stocks : list Q) (start : nat) (ratio_untouched pct : Q) : bool :=
   (1 <=? start)%nat && (start <=? 12)%nat && Qle_bool ratio_untouched (pct / 100) &&
   Qle_bool 0 (stored_tons stocks start ratio_untouched pct).
+
+(* ------------------------------------------------------------------ fat and protein *)
+
+(* OG_FRACTION_FAT / OG_FRACTION_PROTEIN: (BASELINE_CROP_x / 1e3) / (ANNUAL_YIELD * 4e6 / 1e9), zero when nothing is grown *)
+Definition og_fraction (c : crop_in) (nutrient_base : Q) : Q :=
+  Qred (if Qeq_bool (annual_yield c) 0 then 0
+        else (nutrient_base / 1000) / (annual_yield c * 4000000 / 1000000000)).
+
+(* production.fat / production.protein = OG_FRACTION_x * crops_produced * (1 - waste) *)
+Definition outdoor_nutrient (pw : Q -> Q -> Q) (c : crop_in) (g : gh_in) (nutrient_base : Q) : list Q :=
+  let fr := og_fraction c nutrient_base in
+  map (fun x => fr * x * (1 - cwd c / 100)) (crops_produced pw c (greenhouse_fraction (cN c) g)).
+
+(* FAT_RATIO_ROTATION / PROTEIN_RATIO_ROTATION: OG_FRACTION_x, times the rotation ratio when crops are relocated *)
+Definition rotation_ratio (c : crop_in) (nutrient_base rot_ratio : Q) : Q :=
+  Qred (if crot c then og_fraction c nutrient_base * rot_ratio else og_fraction c nutrient_base).
+
+(* greenhouse fat / protein per hectare = ratio * kcals per hectare, then times the area *)
+Definition greenhouse_nutrient (pw : Q -> Q -> Q) (c : crop_in) (g : gh_in) (nutrient_base rot_ratio : Q) : list Q :=
+  if Qeq_bool (gfrac g) 0 then rep 0 (cN c)
+  else if gadd g then
+    let r := rotation_ratio c nutrient_base rot_ratio in
+    map2 Qmult (map (fun k => r * (k * 1 * (1 + ggain g / 100))) (gh_kcals_per_ha_grown pw c g))
+               (greenhouse_area (cN c) g)
+  else rep 0 (cN c).
+
+(* SCP: kcals * (1e9 / 5350 * fraction by mass / 1e6) *)
+Definition scp_fat_conversion : Q := 1000000000 / 5350 * (9 # 100) / 1000000.
+Definition scp_protein_conversion : Q := 1000000000 / 5350 * (650 # 1000) / 1000000.
+Definition scp_nutrient (conv : Q) (kcals : list Q) : list Q := map (fun k => k * conv) kcals.
+
+(* cellulosic sugar carries no fat or protein: np.zeros(len(kcals)) *)
+Definition cs_nutrient (kcals : list Q) : list Q := map (fun _ => 0) kcals.
+
+(* fish fat / protein: tons annual / 1e3 / 12 * waste coefficient, times the monthly percentage *)
+Definition fish_nutrient_monthly (tons_annual wd wr : Q) : Q :=
+  tons_annual / 1000 / 12 * ((1 - wd / 100) * (1 - wr / 100)).
+Definition fish_nutrient_series (add : bool) (n : nat) (tons_annual wd wr : Q) (pct : list Q) : list Q :=
+  if add then map (fun x => x / 100 * fish_nutrient_monthly tons_annual wd wr) (firstn n pct)
+  else map (fun _ => 0) (firstn n pct).
+
+(* feed / biofuel fat and protein demand: tons per year / 12 / 1e3 for `duration` months, then zero *)
+Definition demand_nutrient_series (n duration : nat) (tons_per_year : Q) : list Q :=
+  rep (tons_per_year / 12 / 1000) duration ++ rep 0 (n - duration).
